@@ -84,6 +84,8 @@ fn alphabet() -> Alphabet {
         il::Operation::assign(a(), E::divu(ea(), eb()).unwrap()),
         il::Operation::assign(a(), E::scalar(il::scalar("u", 8))),
         il::Operation::assign(b(), E::xor(eb(), c(1, 8)).unwrap()),
+        // a placeholder no-op wraps an operation that must NOT execute
+        il::Operation::placeholder(il::Operation::assign(a(), c(0x55, 8))),
     ];
     let guards = vec![
         (E::cmpeq(eb(), c(0, 8)).unwrap(), E::cmpneq(eb(), c(0, 8)).unwrap()),
@@ -455,11 +457,19 @@ fn run(ctx: &Ctx) -> Acc {
             if !ctx.mine(n) {
                 return true;
             }
-            ctx.trace(|| format!("prog\t{}", spec.to_json(&alpha)));
-            acc.count("programs", 1);
-            for (ii, init) in inits.iter().enumerate() {
-                check_run(&mut acc, spec, &alpha, init, (n + ii as u64) % 16 == 0);
+            // every program twice: dense instruction indices, and indices starting at 1 (index != position)
+            for gapped in [false, true] {
+                if gapped && spec.blocks.iter().all(|b| b.is_empty()) {
+                    continue;
+                }
+                gen::GAPPED.store(gapped, std::sync::atomic::Ordering::Relaxed);
+                ctx.trace(|| format!("prog\t{}", spec.to_json(&alpha)));
+                acc.count("programs", 1);
+                for (ii, init) in inits.iter().enumerate() {
+                    check_run(&mut acc, spec, &alpha, init, (n + ii as u64) % 16 == 0);
+                }
             }
+            gen::GAPPED.store(false, std::sync::atomic::Ordering::Relaxed);
             true
         });
     }
